@@ -727,7 +727,10 @@ func e2eGen1(rng *rand.Rand, i int) e2eInput {
 		m.Set[k] = rng.Intn(4) > 0
 	}
 	m.Set["edge-pixels"] = true
-	m.Edge = 1 + rng.Intn(2)
+	m.Edge = rng.Intn(3) // 0: no border at all - a zero pixel anywhere makes the frame bad
+	if i%6 == 1 {
+		m.Edge = 0 // (this session gets a forced bad frame below: with no border it is a zero in the outermost ring)
+	}
 	m.Dyn, m.One, m.Warmer = rng.Intn(2) == 0, rng.Intn(2) == 0, rng.Intn(2) == 0
 	lvl := 2900
 	if in.Model == "lepton3.5" {
@@ -807,8 +810,13 @@ func e2eGen1(rng *rand.Rand, i int) e2eInput {
 		// handles the bad frame, they are already in its read buffer - processing must resume with exactly them
 		for k := len(in.Items) / 2; k < len(in.Items); k++ {
 			if !in.Items[k].Clear {
-				in.Items[k].Ov = append([]detOv{{eff.EdgePixels + (in.H-2*eff.EdgePixels)/2, eff.EdgePixels + (in.W-2*eff.EdgePixels)/2, 0}}, in.Items[k].Ov...)
+				by, bx := eff.EdgePixels+(in.H-2*eff.EdgePixels)/2, eff.EdgePixels+(in.W-2*eff.EdgePixels)/2
+				if eff.EdgePixels == 0 {
+					by, bx = 0, in.W-1 // edge-pixels = 0: the outermost ring is interior too
+				}
+				in.Items[k].Ov = append([]detOv{{by, bx, 0}}, in.Items[k].Ov...)
 				in.BurstAt = k
+				in.Const = constOK // (the continuous recorder shows what was accepted: its files end and restart at a bad frame)
 				break
 			}
 		}
